@@ -598,7 +598,31 @@ def _forward_single_use(stmts):
     return out
 
 
+def _lower_return_ifexp(stmts):
+    """`return A if C else B`  ->  `if C: return A` / `else: return B`  (recursively; the CFG-based rules
+    then see the same branch structure whichever way the function was written)"""
+    out = []
+    for s in stmts:
+        for fld in ("body", "orelse", "finalbody"):
+            b = getattr(s, fld, None)
+            if isinstance(b, list) and b and isinstance(b[0], ast.stmt) and not isinstance(s, (ast.FunctionDef, ast.AsyncFunctionDef, ast.ClassDef)):
+                setattr(s, fld, _lower_return_ifexp(b))
+        if isinstance(s, ast.Try):
+            for h in s.handlers:
+                h.body = _lower_return_ifexp(h.body)
+        if isinstance(s, ast.Return) and isinstance(s.value, ast.IfExp):
+            e = s.value
+            new = ast.If(test=e.test,
+                         body=_lower_return_ifexp([ast.copy_location(ast.Return(value=e.body), s)]),
+                         orelse=_lower_return_ifexp([ast.copy_location(ast.Return(value=e.orelse), s)]))
+            out.append(ast.copy_location(new, s))
+        else:
+            out.append(s)
+    return out
+
+
 def canonicalize_function(fn):
+    fn.body = _lower_return_ifexp(fn.body)
     fn.body = _forward_single_use(_loop_to_comp(fn.body))
     for n in ast.walk(fn):
         for fld in ("body", "orelse", "finalbody"):
